@@ -73,6 +73,9 @@ func (s *Sim) finishStopped() {
 	if st == nil {
 		return
 	}
+	// as in teardown: what is drawn after the end of the decision trace comes
+	// from a stream of its own, so that a replayed trace ends as the run did
+	s.rng = rand.New(rand.NewPCG(s.Cfg.Seed^0x2545F4914F6CDD1D, 0xD6E8FEB86659FD93))
 	// C20.b: Stop completes within its bounded timeouts (3 s for the sockets,
 	// 5 s for the HTTP server, 3 s for the messaging client) under a fair
 	// scheduler; the clock moves only when nothing is runnable
